@@ -16,9 +16,9 @@ PID = "C14"
 LEAN_MODULES = ["BemppVerif.Props.C14"]
 N = "BemppVerif.C14."
 THEOREMS = [N + t for t in [
-    "eval_type", "check_iff_run", "illtyped_rejected", "eval_sound", "to_dense_matvec_agree",
-    "product_is_weak_invmass_weak", "apply_gives_projections", "linearity", "real_on_complex_by_parts",
-    "sub_is_add_neg", "blocked_apply_slices", "pot_apply_linear",
+    "eval_type", "check_iff_run", "illtyped_rejected", "welltyped_accepted", "eval_sound", "run_sound",
+    "to_dense_matvec_agree", "product_is_weak_invmass_weak", "apply_gives_projections", "linearity",
+    "real_on_complex_by_parts", "blocked_apply_slices", "pot_apply_linear",
 ]]
 PARTIAL = {}
 TRUSTED = [
@@ -30,12 +30,16 @@ TRUSTED = [
 ]
 ASSUMPTIONS = [
     "transposes/adjoints exist only for Sparse/Dense discrete operators; for lazy _Sum/_Product/_Scaled/InverseSparse/"
-    "Blocked discrete operators the API has none (model: err not-implemented; lead decision, not a counterexample)",
+    "Blocked discrete operators the API has none (model: err not-implemented; lead decision, not a counterexample); "
+    "BoundaryOperator / BlockedOperator have no public transpose or adjoint at all",
     "GridFunction.coefficients flips `representation` from dual to primal as a cache side effect; the harness uses a fresh "
     "GridFunction per leaf occurrence, the flip itself is not modelled (history dependence is C18's subject)",
     "out of the modelled language (harness and model both answer `out-of-scope`): NumPy arrays as operands, NumPy scalars "
     "combined with Python lists, integer/bool scalars, lists containing anything but grid functions, 0-sized block arrays, "
     "NumPy broadcasting of 1-dof spaces, lists as long as a dof count",
+    "not modelled: GeneralizedBlockedOperator, MultitraceOperatorFromAssembler, ZeroBoundaryOperator.__iadd__/__isub__, "
+    "MultiplicationOperator, DiagonalOperator, DiscreteRankOneOperator, GenericDiscreteBoundaryOperator (FMM), single "
+    "precision dtypes (all leaves are float64 / complex128), potential operators with more than one component",
     "tolerance 1e-10 relative to the magnitude bound of the expression (float64 vs exact rational arithmetic)",
 ]
 RULE = ("random programs of depth <= 5 (quick) / 8 (thorough) over a pool of real assembled leaves; a well-typed program is "
@@ -1078,7 +1082,8 @@ def oracle(ctx, budget=None):
                                    f"{obs[0]} instead of raising", program=key, node=" ".join(tokens(f))[:300])
             continue
         if not api_ok:
-            if getattr(sv, "may_notimpl", False) or isinstance(exc, NotImplementedError):
+            if isinstance(exc, NotImplementedError) and any(t in key.split() for t in ("transpose", "adjoint")):
+                # lazy discrete operators have no transpose / adjoint in the API (see ASSUMPTIONS)
                 counts["notimpl"] += 1
                 continue
             kinds = _kinds(n.e, P)
@@ -1152,16 +1157,10 @@ def oracle(ctx, budget=None):
 
 
 def search(ctx, broken):
-    class C2:
-        pass
-    # larger budget: thorough-sized generation on the same pool
-    old = ctx.tier, ctx.thorough
-    try:
-        if hasattr(ctx, "_c14_progs"):
-            del ctx._c14_progs
-        return oracle(ctx, budget=True)
-    finally:
-        ctx.tier, ctx.thorough = old
+    """failing-input search when a proof or the correspondence broke: the oracle on a fresh, larger set of programs"""
+    if hasattr(ctx, "_c14_progs"):
+        del ctx._c14_progs
+    return oracle(ctx, budget=True)
 
 
 def generate(ctx):
